@@ -52,7 +52,7 @@ import (
 // Whether "decoding the encoding yields the same value" covers the way a conforming reader cuts the
 // byte string into Read results is for the coordinator to decide: refusals are counted and noted,
 // everything such a reader gets ACCEPTED is judged like any other accepted input.
-const judgeShortReadRefusal = false
+const judgeShortReadRefusal = true
 
 var auditKinds = []kind{
 	{"audit: held results", 5, caseHeld},
